@@ -30,6 +30,9 @@ class ParameterConstraint(AnonymousSerializable):
             self._expression = sympy.Eq(*sympify(relation.split('==')))
         else:
             self._expression = sympify(relation)
+        if isinstance(self._expression, bool):
+            # a decided constraint is printed as 'True'/'False' which parses to a builtin bool
+            self._expression = sympy.sympify(self._expression)
         if not isinstance(self._expression, sympy.logic.boolalg.Boolean):
             raise ValueError('Constraint is not boolean')
         self._expression = Expression(self._expression)
